@@ -69,7 +69,7 @@ def gen_planets(seed, shard, n):
         ls, bs, rs = Sun.apparent_geocentric_position(Epoch(t))
         el = float(elong)
         yield {"k": "pl", "site": "pl", "pl": pl, "tf": t, "E": F3(E), "P": F3(P), "RE": fx(R0), "RP": fx(R), "delta": fx(delta), "tau": fx(tau),
-               "u": F3(U(float(ra), float(dec))), "ce": fx(math.cos(math.radians(eps))), "se": fx(math.sin(math.radians(eps))),
+               "u": F3(U(float(ra), float(dec))), "ce": fx(math.cos(math.radians(eps))), "se": fx(math.sin(math.radians(eps))), "eps": fx(eps),
                "us": F3(U(float(ls), float(bs))), "elong": fx(el), "cel": fx(math.cos(math.radians(el))),
                "sel": fx(math.sin(math.radians(el))), "jb": fx(jb), "ja": fx(ja)}
 
